@@ -267,7 +267,7 @@ namespace
         int nops = s.in(1, 60);
         for (int op = 0; op < nops && !s.exhausted(); ++op)
         {
-            size_t what = s.weighted({10, 5, isB ? 3 : 0, isB ? 1 : 0, 1, (kind == GRID || kind == GRIDN) ? 1 : 0});
+            size_t what = s.weighted({10, 5, isB ? 3 : 0, isB ? 1 : 0, 1, 2});
             bool deep = s.chance(64) || model.size() <= 12;
             switch (what)
             {
@@ -372,8 +372,8 @@ namespace
                     break;
                 case 5:
                 {
-                    // documented for GridN::remove: a created but never added cell only gets the neighbour counts undone
-                    if constexpr (kind == GRID || kind == GRIDN)
+                    // documented for GridN::remove (and inherited by GridB, which overrides it): a created but never added cell only gets
+                    // the neighbour counts undone - the way to abandon a tentative cell
                     {
                         CoordV v = genCoord();
                         if (model.count(v))
